@@ -124,6 +124,10 @@ def replay(case):
     res = new_result()
     if "declarative" in case:
         judge_declarative(case["declarative"], res)
+    elif case.get("extended_after_first_annotation"):
+        # the sequence is rebuilt: annotate the drawing without its last item, extend it, annotate again
+        judge_direct(case["program"][:-1], case["solution"], case["options"], res)
+        return [v for v in res["violations"] if v["case"].get("extended_after_first_annotation") and v["case"].get("label") == case.get("label")]
     else:
         judge_direct(case["program"], case["solution"], case["options"], res, only=case.get("label"))
     return res["violations"]
@@ -362,6 +366,31 @@ def judge_direct(prog, kind, opts, res, only=None):
         bump(res["hits"], "forms_agree")
     if len(res["samples"]) < 1:
         res["samples"].append({"program": prog, "solution": kind, "options": opts})
+    # the drawing is extended after it has been annotated once (a resistor across the first symbol) and annotated again with a new
+    # solution object: the numbers are those of the drawing as it is now
+    syms = [it for it in prog if it["op"] == "sym"]
+    if only is None and syms:
+        bump(res["hits"], "annotate_extend_annotate")
+        extra = {"op": "sym", "kind": "resistor", "name": "Rx", "p": list(syms[0]["p"]), "q": list(syms[0]["q"]), "params": {"R": 3.0}}
+        case2 = dict(case0, program=prog + [extra], extended_after_first_annotation=True)
+        try:
+            adapt.extend_schematic(sch, [extra], {}, "dir")
+            circ2 = circuit_translator(sch)
+            ref2 = truth(kind, circ2, opts)
+            sol2 = make_solution(kind, sch, opts)
+        except Exception as e:
+            # (a resistor across an ideal voltage source keeps the circuit well-posed; across anything else too)
+            add_violation(res, "label_value_voltage", case2, "a diagram solution", "%s: %s" % (type(e).__name__, e), "annotating the extended drawing raised", kind="exception:" + type(e).__name__)
+            return
+        for name in [n for n in names[:2]] + ["Rx"]:
+            for q, unit, getter, drawer in (("voltage", "V", "get_voltage", "draw_voltage"), ("current", "A", "get_current", "draw_current")):
+                try:
+                    text = label_text(getattr(sol2, drawer)(name, reverse=False))
+                    tv = getattr(ref2, getter)(name)
+                except Exception as e:
+                    add_violation(res, "label_value_" + q, dict(case2, label=[name, q, False]), "a label", "%s: %s" % (type(e).__name__, e), "draw_%s raised on the extended drawing" % q, kind="exception:" + type(e).__name__)
+                    continue
+                check_label(res, dict(case2, label=[name, q, False]), "label_value_" + q, text, form, unit, precision, opts, tv)
 
 
 # ------------------------------------------------------------------ declarative solution section
